@@ -238,6 +238,9 @@ func (w *World) probes(r *RunResult) {
 			if ex.PumpErrLive {
 				r.Probes["request_body_failed_response_open"]++
 			}
+			if ex.CtxNoticedLate {
+				r.Probes["context_end_noticed_late_by_transport"]++
+			}
 			if ex.PumpErrLate {
 				r.Probes["request_body_failed_response_ended"]++
 			}
